@@ -747,6 +747,17 @@ impl NamespaceResolver {
 //@end
 // (the method of `impl Iterator for PrefixIter` is hosted in an inherent impl)
 impl<'a> PrefixIter<'a> {
+//@extract name::PrefixIter::size_hint | src/name.rs :: impl<'a> Iterator for PrefixIter<'a> :: fn size_hint | serves=C05
+    pub fn size_hint(&self) -> (r: (usize, Option<usize>))
+        // the subtraction needs the cursor inside the list: true while the two reserved bindings are there (the cursor starts behind
+        // them); NOT true after a stray end tag at depth 0 has emptied the list (config allow_unmatched_ends: findings/outside_properties)
+        requires self.bindings_cursor <= self.resolver.bindings@.len()
+        ensures r.0 == 0, r.1 == Some((self.resolver.bindings@.len() - self.bindings_cursor) as usize)
+    {
+        // Real count could be less if some namespaces was overridden
+        (0, Some(self.resolver.bindings.len() - self.bindings_cursor))
+    }
+//@end
 //@extract name::PrefixIter::next | src/name.rs :: impl<'a> Iterator for PrefixIter<'a> :: fn next | serves=C05
 //@rewrite self.resolver.bindings[self.bindings_cursor..] .iter() .any(|ne| ==> shim::any_ref(&self.resolver.bindings[self.bindings_cursor..], |ne: &NamespaceEntry|
     #[verifier::loop_isolation(false)]
